@@ -23,6 +23,11 @@ EXTRA = {
         "that puts or removes a special unit and the next full validation of the table (statement: relabelling through "
         "the unit setter is outside the guarantee); relabelling among non-special units is inside and is exercised",
         "tables with strict_types=False are only covered by the default-unit clause",
+        "'building a Table' is a consultation only when keyword arguments are given (`Table(tdf, units=…)` re-validates); "
+        "`Table(tdf)` without keyword arguments validates nothing (proxy.py), the first checked access afterwards does",
+        "after an excluded relabelling the oracle claims the guarantee again only on evidence that the library validated "
+        "the table again (add_column, a consultation that raised, a re-wrap or a derived frame); it assumes nothing about "
+        "what the library remembers between consultations",
     ],
     "explanation": "check_establishes / shortcut_sound / default_units / reachable_cons (Props/C15.lean) hold for every "
                    "history with arbitrary dtype behaviour; constants _unit_from_dtype_kind and _units_special are pinned "
